@@ -138,10 +138,69 @@ def rule_d(repo, chk):
         chk.ob('C09.d', isinstance(a.value, ast.Name), a, 'the cache name is the tested module name itself', norm(a.value))
 
 
+def rule_e(repo, chk):
+    chk.clause('C09.e', 'a file\'s freshness is judged by its full-resolution modification time: every get_last_modified defined in jedi returns '
+                        'os.path.getmtime(<path>) (a float with sub-second resolution) or None for a vanished file, the file-backed IO classes put '
+                        'parso\'s implementation first in their MRO, and nowhere in jedi is a modification time truncated (os.stat(..)[ST_MTIME], '
+                        'int(..), round(..))')
+    defs = []
+    for mod in repo.modules.values():
+        for fn in [x for x in ast.walk(mod.tree) if isinstance(x, FUNC_TYPES) and x.name == 'get_last_modified']:
+            defs.append(fn)
+    chk.floor('C09.e', len(defs), 1, '(definitions of get_last_modified)')
+
+    def full_resolution(fn, e, depth=0):
+        if isinstance(e, ast.Constant) and e.value is None:
+            return True
+        if isinstance(e, ast.Call) and norm(e.func) in ('os.path.getmtime', 'getmtime') and len(e.args) == 1:
+            return True
+        if isinstance(e, ast.Call) and depth < 2:
+            r = repo.resolve(e.func)
+            d = repo.def_by_dotted(r) if r else None
+            if d is not None and isinstance(d, FUNC_TYPES):
+                rets = [x for x in stmts_in(d, ast.Return)]
+                return bool(rets) and all(x.value is not None and full_resolution(d, x.value, depth + 1) for x in rets)
+        if isinstance(e, ast.Attribute) and e.attr == 'st_mtime':
+            return True
+        return False
+    for fn in defs:
+        rets = stmts_in(fn, ast.Return)
+        bad = [r for r in rets if r.value is None or not full_resolution(fn, r.value)]
+        chk.ob('C09.e', bool(rets) and not bad, fn, '%s returns os.path.getmtime(..) / st_mtime (or None)' % repo.qual_of(fn),
+               'returns %s' % [short(r) for r in bad])
+    # MRO: a class of jedi.file_io that derives from a parso file_io class names it first, so that a mixin cannot take over get_last_modified
+    fio = repo.modules['jedi.file_io']
+    n = 0
+    for cls in [x for x in fio.tree.body if isinstance(x, ast.ClassDef)]:
+        bases = [norm(b) for b in cls.bases]
+        pb = [i for i, b in enumerate(bases) if b.startswith('file_io.')]
+        if not pb:
+            continue
+        n += 1
+        own = any(isinstance(x, FUNC_TYPES) and x.name == 'get_last_modified' for x in cls.body)
+        chk.ob('C09.e', own or pb[0] == 0, cls, '%s takes get_last_modified from parso\'s %s (first base) or defines it itself' % (cls.name, bases[pb[0]]),
+               'bases: %s' % bases)
+    chk.floor('C09.e', n, 3, '(IO classes derived from parso.file_io)')
+    # truncation of a modification time anywhere
+    trunc = 0
+    for mod in repo.modules.values():
+        for x in ast.walk(mod.tree):
+            if isinstance(x, ast.Attribute) and x.attr in ('ST_MTIME', 'st_mtime_ns') or isinstance(x, ast.Name) and x.id == 'ST_MTIME':
+                chk.ob('C09.e', False, x, 'modification time read through `%s` (whole seconds / a different unit than parso compares with)' % short(x),
+                       key='%s|trunc|%s' % (mod.name, norm(x)))
+                trunc += 1
+            if isinstance(x, ast.Call) and isinstance(x.func, ast.Name) and x.func.id in ('int', 'round') and x.args and \
+                    any(isinstance(y, ast.Attribute) and y.attr in ('getmtime', 'st_mtime') or isinstance(y, ast.Call) and call_name(y) == 'get_last_modified'
+                        for y in ast.walk(x.args[0])):
+                chk.ob('C09.e', False, x, 'modification time truncated by `%s`' % short(x), key='%s|trunc|%s' % (mod.name, norm(x)))
+                trunc += 1
+    chk.ob('C09.e', True, None, 'no truncation of a modification time in %d modules' % len(repo.modules), key='trunc-scan')
+
+
 def describe(chk):
     chk.undecided('timestamp-granularity races; the pickled cache across processes (parso); staleness of importlib\'s per-directory finder caches '
                   'inside the long-lived helper (jedi never calls importlib.invalidate_caches(); recorded as an assumption, no witness found)')
     chk.assume('parso revalidates a cached tree against the file\'s mtime when it is given file_io/path')
 
 
-RULES = [('C09.a', rule_a), ('C09.b', rule_b), ('C09.c', rule_c), ('C09.d', rule_d)]
+RULES = [('C09.a', rule_a), ('C09.b', rule_b), ('C09.c', rule_c), ('C09.d', rule_d), ('C09.e', rule_e)]
